@@ -149,7 +149,7 @@ pub fn main(a: Args) -> i32 {
     let _ = std::os::unix::fs::symlink(&copia, format!("{}/copia", bindir));
     let cx = Ctx { copia, standin, bindir };
     let mut r = Rng::new(a.seed ^ 0xC04);
-    let n = if a.tier == "thorough" { 2500 } else { 170 };
+    let n = if a.tier == "thorough" { 2500 } else { 250 };
     let srcd = format!("{}/S", absout);
     let dstd = format!("{}/D r", absout); // a space in the destination root
     let pool: Vec<Vec<u8>> = vec![b"".to_vec(), b"x".to_vec(), b"hello".to_vec(), b"HELLO".to_vec(), vec![7u8; 1000], vec![9u8; 300_000]];
